@@ -7,22 +7,6 @@ From Coq Require Import String List NArith Bool Lia.
 From IastRw Require Import Ast Generated Config ToConfig Model HookSites WfTree P_OpVisit P_Config P_Hooks P_Count P_CountGlobal.
 Import ListNotations.
 
-Definition name_weight (ok : string -> bool) (n : node) : nat :=
-  match n with
-  | Node (K KMember _ _) [_; prop] =>
-      match ident_name_sym prop with
-      | Some x => if ok x then 0 else 1
-      | None => 1
-      end
-  | _ => 1
-  end.
-
-Definition stop_names (ok : string -> bool) (n : node) : option nat :=
-  if is_ns_member n then Some (name_weight ok n) else None.
-
-Definition badname (ok : string -> bool) : node -> nat := meas (stop_names ok) 0.
-Definition badname_list (ok : string -> bool) : list node -> nat := meas_list (stop_names ok) 0.
-
 Section Names.
   Variable ok : string -> bool.
 
@@ -72,10 +56,6 @@ Section Names.
   Qed.
 End Names.
 
-(** The acceptable names of a configuration: its replacement names. *)
-Definition configured (c : config) (name : string) : bool :=
-  existsb (String.eqb name) (configured_dsts c).
-
 Lemma configured_in c name : In name (configured_dsts c) -> configured c name = true.
 Proof.
   intros H. unfold configured. apply existsb_exists. exists name. split; [exact H | apply String.eqb_refl].
@@ -92,15 +72,6 @@ Qed.
 
 (** What weighing nothing means: every member expression on the namespace, anywhere in the tree (nested blocks
     and functions included), has an acceptable static name. *)
-Fixpoint ns_members (n : node) : list node :=
-  match n with
-  | Node t cs =>
-      if is_ident (Node t cs) || leaf (Node t cs) then []
-      else
-        (if is_ns_member (Node t cs) then [Node t cs] else []) ++
-        (fix go (l : list node) : list node := match l with [] => [] | c :: l' => ns_members c ++ go l' end) cs
-  end.
-
 Lemma ident_name_leaf prop x : ident_name_sym prop = Some x -> leaf prop = true.
 Proof.
   unfold ident_name_sym. destruct prop as [[k lo hi| | | | | |] pcs]; try discriminate.
